@@ -145,8 +145,9 @@ func init() {
 	})
 }
 
-func ruleVotersReloadInclusive(c *Ctx) {
-	const rule = "R13.6"
+func ruleVotersReloadInclusive(c *Ctx) { ruleVotersReloadInclusiveAs(c, "R13.6") }
+
+func ruleVotersReloadInclusiveAs(c *Ctx, rule string) {
 	fn := c.Fn("ledger.votersTracker.loadFromDisk")
 	loadTree := c.Func("ledger.votersTracker.loadTree")
 	name := "ledger.votersTracker.loadFromDisk"
